@@ -122,12 +122,16 @@ def new_phonopy(cfgobj, quiet=True, **override):
     """Phonopy object of the abstract object: constructor options from obj.np (override: the options load() is given)."""
     cr = CRYSTALS[cfgobj["cell"]["name"]]
     calc = None if cfgobj["calc"] == "none" else cfgobj["calc"]
+    lattice = override.pop("lattice", None)
     opt = dict(NP_OBJ0)
     opt.update(cfgobj.get("np") or {})
     opt.update(override)
     factor = OWN_FACTOR if opt["factor"] == "own" else DEFAULT_FACTOR[cfgobj["calc"]]
+    ucell = make_unitcell(cfgobj["cell"])
+    if lattice is not None:
+        ucell.cell = lattice
     with contextlib.redirect_stdout(io.StringIO()):
-        ph = Phonopy(make_unitcell(cfgobj["cell"]), supercell_matrix=cr["smat"], primitive_matrix=cr["pmat"],
+        ph = Phonopy(ucell, supercell_matrix=cr["smat"], primitive_matrix=cr["pmat"],
                      factor=factor, calculator=calc, use_SNF_supercell=bool(opt["snf"]), symprec=SYMPREC[opt["tol"]],
                      is_symmetry=bool(opt["issym"]), store_dense_svecs=bool(opt["dense"]))
     return ph
@@ -152,9 +156,20 @@ def iso_nac(ph, z, eps, rng=None):
 RZ = np.array([[0, -1, 0], [1, 0, 0], [0, 0, 1]], dtype=float)
 
 
-def make_nac(ph, name, k):
+def make_nac(ph, name, k, generic=False):
     """NAC parameters allowed by the space group of the crystal, anisotropic wherever the sites allow it,
-    neutral; k = 1, 2, ... gives different numbers for the different sources.  All entries are multiples of 1/64."""
+    neutral; k = 1, 2, ... gives different numbers for the different sources.  All entries are multiples of 1/64
+    (in the frame of the tabulated lattice; rotated with it for the 'generic' cells)."""
+    nac = _make_nac(ph, name, k)
+    if generic:
+        from harness import xtal
+        Q = xtal.random_rotation(np.random.default_rng(12345))  # the rotation of make_unitcell: v' = v Q
+        nac["born"] = np.array([Q.T @ b @ Q for b in nac["born"]])
+        nac["dielectric"] = Q.T @ nac["dielectric"] @ Q
+    return nac
+
+
+def _make_nac(ph, name, k):
     syms = [s.rstrip("0123456789") for s in ph.primitive.symbols]
     n = len(syms)
     u = 1.0 / 64
@@ -261,6 +276,7 @@ def translation_perms(ph):
     plat = ph.primitive.cell
     slat = sc.cell
     out = []
+    tol = max(1e-6, float(ph.symmetry.tolerance) / 2.0)  # (fractional; the object's own tolerance for distorted cells)
     # supercell positions in primitive lattice coordinates
     cart = pos @ slat
     pfrac = cart @ np.linalg.inv(plat)
@@ -268,7 +284,7 @@ def translation_perms(ph):
         found = None
         for pi, s in enumerate(p2s):
             t = pfrac[s] - pfrac[i]
-            if np.abs(t - np.rint(t)).max() < 1e-6 and sc.symbols[s] == sc.symbols[i]:
+            if np.abs(t - np.rint(t)).max() < tol and sc.symbols[s] == sc.symbols[i]:
                 found = (pi, np.rint(t))
                 break
         assert found is not None
@@ -279,7 +295,7 @@ def translation_perms(ph):
             x = pos[j] + tc
             dd = pos - x
             dd -= np.rint(dd)
-            k = np.where(np.abs(dd).max(axis=1) < 1e-6)[0]
+            k = np.where(np.abs(dd).max(axis=1) < tol)[0]
             assert len(k) == 1
             perm[j] = k[0]
         out.append((pi, perm))
@@ -348,7 +364,7 @@ class World:
             ph.force_constants = fc
             self.src_fc["yaml"] = ph.force_constants.copy()
         if o["nac"]["kind"] != "none":
-            nac = make_nac(ph, o["cell"]["name"], 1)
+            nac = make_nac(ph, o["cell"]["name"], 1, o["cell"].get("generic"))
             if o["nac"]["kind"] in ("gonze", "wang"):
                 nac["method"] = o["nac"]["kind"]
             if o["nac"]["factor"]:
@@ -402,7 +418,7 @@ class World:
             self.src_fc["fcfile"] = fc
 
         def write_born(name, k):
-            nac = make_nac(ph, cfg["obj"]["cell"]["name"], k)
+            nac = make_nac(ph, cfg["obj"]["cell"]["name"], k, cfg["obj"]["cell"].get("generic"))
             # BORN holds the symmetry-independent atoms of the primitive cell (tensors of make_nac are equivariant)
             from phonopy.structure.symmetry import Symmetry
             indep = Symmetry(ph.primitive).get_independent_atoms()
@@ -419,7 +435,7 @@ class World:
             self.src_nac["bornfile"] = write_born("my_born", 3)
             kw["born_filename"] = "my_born"
         if args["nacArg"]:
-            self.src_nac["arg"] = make_nac(ph, cfg["obj"]["cell"]["name"], 4)
+            self.src_nac["arg"] = make_nac(ph, cfg["obj"]["cell"]["name"], 4, cfg["obj"]["cell"].get("generic"))
             kw["nac_params"] = {k: np.array(v) for k, v in self.src_nac["arg"].items()}
         if args["calcArg"] != "none":
             kw["calculator"] = args["calcArg"]
@@ -608,7 +624,10 @@ def cell_err(a, b):
     magnetic moments (8); symbols exact."""
     out = dict(sym=list(a.symbols) == list(b.symbols))
     out["lat"] = err_class(a.cell, b.cell, 15)
-    out["pos"] = err_class(a.scaled_positions, b.scaled_positions, 15)
+    pa, pb = np.array(a.scaled_positions), np.array(b.scaled_positions)
+    if pa.shape == pb.shape:
+        pb = pb + np.rint(pa - pb)  # positions are defined modulo lattice vectors (0.9999999999999999 = 0)
+    out["pos"] = err_class(pa, pb, 15)
     out["mass"] = err_class(a.masses, b.masses, 6)
     ma, mb = a.magnetic_moments, b.magnetic_moments
     if ma is None and mb is None:
